@@ -111,7 +111,7 @@ InitState(pool0, V) ==
     seed |-> V.seed, over |-> <<>>]
 AllAffs(rec) == UNION {{rec.instrs[i].affs[j] : j \in 1..Len(rec.instrs[i].affs)} : i \in 1..Len(rec.instrs)}
 InputTrees(rec) == AllAffs(rec) \cup {rec.pool0[i].e : i \in 1..Len(rec.pool0)}
-OutputTrees(rec) == {rec.regs[i].e : i \in 1..Len(rec.regs)} \cup {rec.rbs[i].r : i \in 1..Len(rec.rbs)}
+OutputTrees(rec) == {rec.regs[i].e : i \in 1..Len(rec.regs)} \cup {rec.rbs[i].r : i \in {j \in 1..Len(rec.rbs) : rec.rbs[j].r.k # "none"}}
                     \cup {rec.rbs[i].a : i \in 1..Len(rec.rbs)}
                     \cup {rec.cells[i].a : i \in 1..Len(rec.cells)} \cup {rec.cells[i].v : i \in 1..Len(rec.cells)}
 MaxW(a, b) == IF a > b THEN a ELSE b
@@ -184,20 +184,23 @@ PVerdict(rec) ==
                      \ ((DOMAIN rec.envs[1].id) \cup {rec.pool0[i].n : i \in 1..Len(rec.pool0)}) IN
    IF unb # {} THEN <<[clause |-> "input.unbound", names |-> unb]>>
    ELSE LET allrb == 1..Len(rec.rbs)
-            illrb == {i \in allrb : rec.rbs[i].r.k = "aff" \/ rec.rbs[i].a.k = "aff" \/ ~WellTyped(rec.rbs[i].r) \/ ~WellTyped(rec.rbs[i].a)}
-            widrb == {i \in allrb \ illrb : Width(rec.rbs[i].r) # rec.rbs[i].w}
+            norb == {i \in allrb : rec.rbs[i].r.k = "none"}            \* the read-back raised or did not answer
+            illrb == {i \in allrb \ norb : rec.rbs[i].r.k = "aff" \/ rec.rbs[i].a.k = "aff" \/ ~WellTyped(rec.rbs[i].r) \/ ~WellTyped(rec.rbs[i].a)}
+            widrb == {i \in allrb \ (illrb \cup norb) : Width(rec.rbs[i].r) # rec.rbs[i].w}
             illreg == {i \in 1..Len(rec.regs) : rec.regs[i].e.k = "aff" \/ ~WellTyped(rec.regs[i].e)}
             illcell == {i \in 1..Len(rec.cells) : ~CellTyped(rec.cells[i])}
             widcell == {i \in (1..Len(rec.cells)) \ illcell : Width(rec.cells[i].v) # rec.cells[i].w}
             lp == LastPaths(rec, rec.envs[1], InitState(rec.pool0, rec.envs[1]))
-        IN (IF illrb = {} THEN <<>> ELSE <<[clause |-> "C07.welltyped", what |-> "readback", rb |-> MinOf(illrb), lastpaths |-> lp,
+        IN (IF norb = {} THEN <<>> ELSE <<[clause |-> "C07.noanswer", what |-> "readback", rb |-> MinOf(norb), lastpaths |-> lp,
+                                           path |-> RbPath(rec, MinOf(norb)), paths |-> {RbPath(rec, k) : k \in norb}]>>)
+        \o (IF illrb = {} THEN <<>> ELSE <<[clause |-> "C07.welltyped", what |-> "readback", rb |-> MinOf(illrb), lastpaths |-> lp,
                                            path |-> RbPath(rec, MinOf(illrb)), paths |-> {RbPath(rec, k) : k \in illrb}]>>)
         \o (IF widrb = {} THEN <<>> ELSE <<[clause |-> "C07.width", what |-> "readback", rb |-> MinOf(widrb), lastpaths |-> lp,
                                            path |-> RbPath(rec, MinOf(widrb)), paths |-> {RbPath(rec, k) : k \in widrb}]>>)
         \o (IF illreg = {} THEN <<>> ELSE <<[clause |-> "C07.welltyped", what |-> "reg", regs |-> {rec.regs[k].n : k \in illreg}, lastpaths |-> lp]>>)
         \o (IF illcell = {} THEN <<>> ELSE <<[clause |-> "C07.pool_welltyped", cell |-> MinOf(illcell), lastpaths |-> lp]>>)
         \o (IF widcell = {} THEN <<>> ELSE <<[clause |-> "C07.pool_width", cell |-> MinOf(widcell), lastpaths |-> lp]>>)
-        \o ValueClauses(rec, (1..Len(rec.regs)) \ illreg, allrb \ (illrb \cup widrb), illcell = {} /\ widcell = {})
+        \o ValueClauses(rec, (1..Len(rec.regs)) \ illreg, allrb \ (illrb \cup widrb \cup norb), illcell = {} /\ widcell = {})
 
 Verdict(rec) == IF rec.t = "h" THEN HVerdict(rec) ELSE PVerdict(rec)
 VARIABLE i
